@@ -195,7 +195,10 @@ class StateTomography:
                 operations.
 
         """
-        circuit = self.base_circuit.copy()
+        # build on a fresh circuit so that heralds declared directly on the base
+        # circuit become internal modes and qubit k sits on modes 2k, 2k+1
+        circuit = Circuit(self.base_circuit.input_modes)
+        circuit.add(self.base_circuit)
         # Check number of circuits is correct
         if len(measurement_operators) != self.n_qubits:
             msg = (
